@@ -934,3 +934,136 @@ Proof.
   split; [eexists; vm_compute; reflexivity|].
   vm_compute. repeat split.
 Qed.
+
+(* ---- the crai FILE: the gzip container around the text (round 8).  Models: C19's NV.CramIdx.Gz
+   (flate2's GzHeaderParser / single-member GzDecoder) with C01's executable RFC 1951 inflater
+   NV.Bgzf.Inflate inside (both imported read-only), composed with C17's crai text reader
+   (NV.Trunc.CraiGz.crai_file_read).  EVERY cut of a .crai file is an error, UnexpectedEof ---- *)
+From NV Require Import Bgzf.Frame Bgzf.Inflate CramIdx.Gz CramIdx.GzProofs Trunc.InflateExtProofs Trunc.CraiGz Trunc.CraiGzProofs.
+
+(* C01's inflater is stable under extension of its input: what it accepts it accepts, with the same
+   output, whatever follows - and it leaves exactly what follows behind *)
+Theorem c13_inflate_stable_under_extension : forall limit p x out rest,
+  inflate_raw limit p = Some (out, rest) -> inflate_raw limit (p ++ x) = Some (out, rest ++ x).
+Proof. exact inflate_raw_ext. Qed.
+Print Assumptions c13_inflate_stable_under_extension.
+
+(* hence a DEFLATE stream (any blocks: stored, fixed, dynamic) that is read up to the bytes behind
+   it is REFUSED at every strict prefix: a cut inside the stream never reads as a complete stream *)
+Theorem c13_deflate_strict_prefix_refused : forall limit d tail out j,
+  inflate_raw limit (d ++ tail) = Some (out, tail) -> (j < length d)%nat ->
+  inflate_raw limit (firstn j d) = None.
+Proof. exact inflate_raw_strict_prefix. Qed.
+Print Assumptions c13_deflate_strict_prefix_refused.
+
+(* the gzip header parser: an accepted header stays accepted, a refusal other than "source ended"
+   stays a refusal, whatever follows *)
+Theorem c13_gzip_header_stable : forall bs x,
+  (forall r, gz_header bs = GOk r -> gz_header (bs ++ x) = GOk (r ++ x)) /\
+  (forall e, gz_header bs = GErr e -> e <> GzEof -> gz_header (bs ++ x) = GErr e).
+Proof. intros bs x. split; [exact (gz_header_ext bs x)|exact (gz_header_err_ext bs x)]. Qed.
+Print Assumptions c13_gzip_header_stable.
+
+(* ANY gzip member (whatever header fields - FEXTRA, FNAME, FCOMMENT, FHCRC -, whatever DEFLATE
+   blocks, whoever wrote it) with nothing behind its 8 trailer bytes: EVERY strict prefix is refused,
+   with GzEof (the source ends inside the header or the trailer) or GzBody (inside the DEFLATE
+   stream) - both io::ErrorKind::UnexpectedEof *)
+Theorem c13_gzip_member_truncation : forall bs k, gz_exact_member bs -> (k < length bs)%nat ->
+  gunzip (firstn k bs) = GErr GzEof \/ gunzip (firstn k bs) = GErr GzBody.
+Proof. exact gunzip_cut. Qed.
+Print Assumptions c13_gzip_member_truncation.
+
+Theorem c13_crai_file_truncation_any_member : forall bs k, gz_exact_member bs -> (k < length bs)%nat ->
+  crai_file_obs (firstn k bs) = inl KUnexpectedEof.
+Proof. exact crai_file_cut_any. Qed.
+Print Assumptions c13_crai_file_truncation_any_member.
+
+(* the executable test of the premise, evaluated on every file of the correspondence check *)
+Theorem c13_gz_exact_test_sound : forall bs, gz_exact_b bs = true -> gz_exact_member bs.
+Proof. exact gz_exact_b_spec. Qed.
+Print Assumptions c13_gz_exact_test_sound.
+
+(* the file crai::io::Writer emits (10-byte header, the stream of ANY compressor that C01's inflater
+   inverts - the premise under which flate2's compressor enters, as in C19 -, CRC32 + ISIZE), cut
+   at k, by region: UnexpectedEof inside the header (GzEof), inside the DEFLATE stream (GzBody) and
+   inside the trailer (GzEof); the written index on the whole file *)
+Theorem c13_crai_file_cut_regions : forall comp, inflatable comp -> forall l k,
+  Forall crai_ok l -> lenN (w_crai l) <= gz_limit ->
+  crai_file_read (firstn k (crai_file_write comp l)) =
+    if (k <? 10)%nat then GErr GzEof
+    else if (k <? 10 + length (comp (w_crai l)))%nat then GErr GzBody
+    else if (k <? length (crai_file_write comp l))%nat then GErr GzEof
+    else GOk l.
+Proof. exact crai_file_cut_written. Qed.
+Print Assumptions c13_crai_file_cut_regions.
+
+(* the property for crai files: an error at EVERY cut short of the whole file, the written index on
+   the whole file; never another index *)
+Theorem c13_crai_file_truncation : forall comp, inflatable comp -> forall l k,
+  Forall crai_ok l -> lenN (w_crai l) <= gz_limit ->
+  crai_file_obs (firstn k (crai_file_write comp l)) =
+    if (k <? length (crai_file_write comp l))%nat then inl KUnexpectedEof else inr l.
+Proof. exact crai_file_truncation. Qed.
+Print Assumptions c13_crai_file_truncation.
+
+(* the stored-block compressor (flate2 level 0): no premise about the compressor *)
+Theorem c13_crai_file_truncation_stored : forall l k,
+  Forall crai_ok l -> lenN (w_crai l) <= gz_limit ->
+  crai_file_obs (firstn k (crai_file_write deflate_stored l)) =
+    if (k <? length (crai_file_write deflate_stored l))%nat then inl KUnexpectedEof else inr l.
+Proof. exact crai_file_truncation_stored. Qed.
+Print Assumptions c13_crai_file_truncation_stored.
+
+(* the crai TEXT cut at k inside an INTACT member (what the `crai` kind of the correspondence check
+   builds): the text theorem c13_crai_truncation lifted through the gzip layer *)
+Theorem c13_crai_regzipped_text_truncation : forall comp, inflatable comp -> forall l k,
+  Forall crai_ok l -> lenN (w_crai l) <= gz_limit ->
+  crai_file_read (gzip_text comp (firstn k (w_crai l))) =
+    match text_index_cut crai_partial crai_line l k with
+    | Some res => GOk res
+    | None => GErr GzText
+    end.
+Proof. exact crai_regzipped_cut. Qed.
+Print Assumptions c13_crai_regzipped_text_truncation.
+
+(* non-vacuity: a two-record index in a stored-block member is an exact member; all of its cuts,
+   computed: 61 errors, then the index; and a member with FEXTRA, FNAME and FHCRC fields (real CRC-32) *)
+Definition ex_crai : list crai_rec :=
+  [mkcrai (Some 0) (Some 5) 10 26 3 100; mkcrai None None 0 200 7 50].
+Definition ex_gz_fields : list N :=
+  let h := [31; 139; 8; 14; 1; 2; 3; 4; 0; 3] ++ [2; 0; 65; 66] ++ [120; 0] in
+  h ++ firstn 2 (le32 (crc32 h)) ++ deflate_stored (w_crai ex_crai) ++ gz_trailer (w_crai ex_crai).
+Example c13_ex_crai_file :
+  Forall crai_ok ex_crai /\
+  gz_exact_b (crai_file_write deflate_stored ex_crai) = true /\
+  crai_file_cuts (crai_file_write deflate_stored ex_crai) =
+    repeat (inl KUnexpectedEof) (length (crai_file_write deflate_stored ex_crai)) ++ [inr ex_crai] /\
+  gz_exact_b ex_gz_fields = true /\
+  crai_file_cuts ex_gz_fields = repeat (inl KUnexpectedEof) (length ex_gz_fields) ++ [inr ex_crai].
+Proof.
+  split; [repeat constructor; cbv; intuition discriminate|].
+  vm_compute. repeat split.
+Qed.
+
+(* ---- error KINDS of the gzi reader (round 8): the kind model read_gzi_k refines C17's read_gzi;
+   every cut of a written gzi short of the whole file is UnexpectedEof (never InvalidData), the
+   whole file the index; bytes behind a written index are InvalidData ---- *)
+From NV Require Import Trunc.GziKind Trunc.GziKindProofs.
+
+Theorem c13_gzi_kind_refines : forall bs,
+  read_gzi bs = match read_gzi_k bs with inr l => Some l | inl _ => None end.
+Proof. exact read_gzi_k_erase. Qed.
+Print Assumptions c13_gzi_kind_refines.
+
+Theorem c13_gzi_truncation_kind : forall idx k,
+  N.of_nat (length idx) < 18446744073709551616 -> Forall chunk_ok idx ->
+  read_gzi_k (firstn k (w_gzi idx)) =
+    if (k <? length (w_gzi idx))%nat then inl Stream.UnexpectedEof else inr idx.
+Proof. exact gzi_truncation_kind. Qed.
+Print Assumptions c13_gzi_truncation_kind.
+
+Theorem c13_gzi_trailing_bytes_invalid_data : forall idx b t,
+  N.of_nat (length idx) < 18446744073709551616 -> Forall chunk_ok idx ->
+  read_gzi_k (w_gzi idx ++ b :: t) = inl Stream.InvalidData.
+Proof. exact gzi_trailing_kind. Qed.
+Print Assumptions c13_gzi_trailing_bytes_invalid_data.
